@@ -685,13 +685,17 @@ def gen_defs(rng):
     return defs, faults
 
 
-def gen_prog(rng):
+def gen_prog(rng, cyclic=False):
     defs, faults = gen_defs(rng)
-    nfiles = rng.choice([1, 1, 2, 2, 3, 4])
+    nfiles = rng.choice([1, 1, 2, 2, 3, 4]) if not cyclic else rng.choice([2, 3, 4])
     incdir = rng.choice(["prog", "prog", "lib"])
+    # "twins": two different files reached through the same literal include string from different directories
+    twin = (not cyclic) and rng.random() < 0.06
+    if twin:
+        nfiles, incdir = 4, "lib"
     # file k may include files with a larger number only (no cycles)
-    rels = ["prog/main.bas"]
-    for k in range(1, nfiles):
+    rels = ["prog/main.bas"] + (["prog/defs.inc", "prog/sub/module.inc", "prog/sub/defs.inc"] if twin else [])
+    for k in range(1, nfiles if not twin else 0):
         style = rng.choice(["inc", "inc", "rel", "up"])
         if style == "inc":
             rels.append("%s/%s" % (incdir, rng.choice(["sub/f%d.inc", "f%d/defs.inc", "sub/deep/f%d.inc"]) % k))
@@ -721,9 +725,13 @@ def gen_prog(rng):
     # include edges: every file > 0 gets at least one includer with a smaller number
     missing = rng.random() < 0.03
     for k in range(1, nfiles):
-        for src in sorted(set([rng.randrange(k)] + ([rng.randrange(k)] if rng.random() < 0.25 else []))):
+        for src in ({1: [0], 2: [0], 3: [2]}[k] if twin else
+                    sorted(set([rng.randrange(k)] + ([rng.randrange(k)] if rng.random() < 0.25 else [])))):
             if rels[k] is None:
-                rels[k] = os.path.dirname(rels[src] if rels[src] else "prog/x") + "/" + rng.choice(["loc%d.inc", "l/loc%d.inc"]) % k
+                base = os.path.dirname(rels[src] if rels[src] else "prog/x")
+                cands = [base + "/" + n for n in ("defs.inc", "loc.inc", "l/defs.inc", "defs%d.inc" % k, "l/loc%d.inc" % k)]
+                cands = [c for c in cands if os.path.normpath(c) not in [os.path.normpath(r) for r in rels if r]]
+                rels[k] = cands[0] if rng.random() < 0.6 else rng.choice(cands)
             srcdir = os.path.dirname(rels[src])
             if rels[k].startswith(incdir + "/") and "/" in rels[k][len(incdir) + 1:] and rng.random() < 0.7:
                 inc = rels[k][len(incdir) + 1:]
@@ -738,13 +746,23 @@ def gen_prog(rng):
             text = rng.choice(["", " ", "\t"]) + rng.choice(["#Include", "#include", "#INCLUDE"]) + rng.choice([" ", "  ", "\t"]) \
                 + inc + rng.choice(["", "", " ", " ' inc", "'c"])
             lines[src].insert(rng.randint(0, len(lines[src])), [text, None, k])
+    # circular includes (rare): a back edge from a later file to an earlier one. /repo never terminates on these;
+    # the ground truth is the acyclic unfolding (every file once, in first-visit order)
+    if cyclic and nfiles > 1 and not missing:
+        src = rng.randrange(1, nfiles)
+        dst = 0 if rng.random() < 0.5 else rng.randrange(0, src + 1)     # main is an ancestor of every file: a true cycle
+        inc = os.path.relpath(rels[dst], os.path.dirname(rels[src]))
+        inc = inc if inc.startswith(".") else "./" + inc
+        lines[src].insert(rng.randint(0, len(lines[src])), ["#Include " + inc, None, dst])
+    else:
+        cyclic = False
     files = {}
     for k in range(nfiles):
         if missing and k == nfiles - 1 and k > 0:
             continue
         files[os.path.normpath(rels[k])] = [t for t, _, _ in lines[k]]
-    # ground truth: BFS over the include edges
-    expect, queue = [], [0]
+    # ground truth: BFS over the include edges (repeated inclusions repeat the block, as /repo does)
+    expect, queue, seen = [], [0], {0}
     steps = 0
     while queue and steps < 200:
         k = queue.pop(0)
@@ -755,11 +773,12 @@ def gen_prog(rng):
         for ln, (t, sym, inc) in enumerate(lines[k]):
             if sym is not None:
                 expect.append((os.path.normpath(rels[k]), ln + 1, sym[0], sym[1]))
-            if inc is not None:
+            if inc is not None and not (cyclic and inc in seen):
+                seen.add(inc)
                 queue.append(inc)
     return {"kind": "prog", "files": files, "main": "prog/main.bas", "incdir": incdir,
             "eol": rng.choice(["\n", "\n", "\n", "\r\n"]), "final_eol": rng.random() < 0.8,
-            "expect_syms": expect if known else None, "faults": faults, "missing": missing}
+            "expect_syms": expect if known else None, "faults": faults, "missing": missing, "cyclic": cyclic, "twin": twin}
 
 
 def gen_syms(rng):
@@ -875,6 +894,13 @@ def gen_dev(rng, binding=None):
                         seen.add(s)
                         ps.append((s, val_for(n, 0.04)))
                 ops.append(("setm", ps))
+            # a batch call that fails (unknown name / non-int for Par) leaves a prefix of effects the property does not
+            # fix: such a call ends the history
+            lk = lambda n: next((d for k, d in binding if k.lower() == n.lower()), None)
+            last = ops[-1]
+            if any(lk(n if last[0] == "getm" else n[0]) is None for n in last[1]) or \
+                    (last[0] == "setm" and any(lk(n)[0] == "P" and v[0] != "i" for n, v in last[1])):
+                break
     return {"kind": "dev", "binding": [(n, tuple(d)) for n, d in binding], "int_arrays": int_arrays,
             "init": init, "ops": ops}
 
@@ -929,7 +955,7 @@ def observe(case, scratch, serial=0):
         truth = case.get("expect_syms")      # the #Define lines written, in traversal order (None: a file is missing)
         if res == ("other", 98):
             pass        # circular includes, no termination: left open by C20 (only generated for circular graphs)
-        elif syms is not None or res[0] in ("binding", "err"):
+        elif syms is not None:
             # judged against what the program contains, not against the code's own scan of it
             w = oracle_binding(truth if truth is not None else syms, res)
             if w:
@@ -1007,21 +1033,18 @@ def shrink(case, scratch, key):
                         i += 1
         return c
     if k == "prog":
-        c = dict(case, expect_syms=None) if not key.startswith("scanner") else dict(case)
-        if key.startswith("scanner"):
-            return c
+        c = dict(case)
         for rel in list(c["files"]):
-            i = 0
-            while i < len(c["files"][rel]):
+            for i in range(len(c["files"][rel])):
                 ls = c["files"][rel]
-                if ls[i].lstrip().lower().startswith("#include"):
-                    i += 1
+                if ls[i] == "" or ls[i].lstrip().lower().startswith("#include"):
                     continue
-                t = dict(c, files=dict(c["files"], **{rel: ls[:i] + ls[i + 1:]}))
+                # blank the line (line numbers stay) and drop it from the ground truth
+                t = dict(c, files=dict(c["files"], **{rel: ls[:i] + [""] + ls[i + 1:]}))
+                if c.get("expect_syms") is not None:
+                    t["expect_syms"] = [e for e in c["expect_syms"] if not (e[0] == rel and e[1] == i + 1)]
                 if fails(t):
                     c = t
-                else:
-                    i += 1
         return c
     return case
 
@@ -1039,10 +1062,14 @@ def run(ck):
     ck.assumptions = [
         "identifiers and source lines are ASCII (str.upper/lower = ASCII case mapping); theorems hold for any upper/lower functions, "
         "the batch theorems under the stated law lower a = lower b -> upper a = upper b",
-        "include graphs are acyclic (a cycle makes parse_adbasic_program loop forever; termination is not part of C20)",
-        "batch = single is claimed for names that are bound and pairwise distinct up to case and for values type-correct for their "
-        "register (python int for Par); on a TypeError/ValueError the batch accessors stop after a different prefix of effects than "
-        "one-by-one calls would (modelled exactly, not part of the property)",
+        "termination of the include traversal is not part of C20: on a circular include graph (a few are generated and run under a "
+        "0.25 s watchdog) both 'does not terminate' (what /repo does) and 'the result on the acyclic unfolding' are accepted; "
+        "repeated inclusion of a file is equivalent to single inclusion (theorem C20_repeated_symbols_ignored)",
+        "batch = single is claimed for names that are bound and pairwise distinct up to case (a SUBSET of the parameters, any "
+        "spelling) and for values type-correct for their register (python int for Par); the same parameter requested under two "
+        "spellings in one call is outside: only 'every key carries the single-read value and every requested name is "
+        "represented' is checked there; on a TypeError/ValueError the batch accessors stop after a different prefix of effects "
+        "than one-by-one calls would: only the exception class is compared",
         "values are opaque atoms: numeric coercion inside the ADwin driver (int32 / float64 conversion) is outside",
     ]
     rng = ck.rng
@@ -1050,6 +1077,8 @@ def run(ck):
     cases = []
     for _ in range(900 if quick else 15000):
         cases.append(gen_prog(rng))
+    for _ in range(12 if quick else 120):
+        cases.append(gen_prog(rng, cyclic=True))
     for _ in range(500 if quick else 8000):
         cases.append(gen_syms(rng))
     cases += gen_ranges(ck)
@@ -1077,6 +1106,12 @@ def run(ck):
                 ck.count("inject:" + f)
             if k == "prog":
                 ck.count("prog:files=%d" % len(case["files"]))
+                if case.get("twin"):
+                    ck.count("prog:same-include-string-two-files")
+                if case.get("cyclic"):
+                    ck.count("prog:circular-include:" + ("no-termination" if r == ("other", 98) else "terminated"))
+                if obs["syms"] is not None and len(set(obs["syms"])) != len(obs["syms"]):
+                    ck.count("prog:file-included-more-than-once")
             if r[0] == "binding":
                 nontrivial = len(r[1]) + len(r[2]) > 0
                 if r[1] and all(d[0] != "?" and all(x < 40 for x in d[1:]) for _, d in r[1]):
